@@ -19,7 +19,7 @@ PROP = {
              {"tag": "c06huge", "bin": "c06", "args": ["--huge"], "model": False}],
     "mismatch_is_failing": True,
     "regen_files": ["GenIter.v", "GenSigs.v"],
-    "rule": "exhaustive: every reachable (front,back) position (directly and through clone) x every operation x every argument 0..=len+2 and usize::MAX for N<=5 (thorough: N<=8), followed by a fixed observation trailer; plus seeded histories over N in {0,1,2,3,5,8,16,97,1024}. distinct = distinct CASE lines; non-trivial = the array is non-empty (first integer > 0)",
+    "rule": "exhaustive: every reachable (front,back) position (directly and through clone) x every operation x every argument 0..=len+2 and usize::MAX for N<=5 (thorough: N<=8), followed by a fixed observation trailer; plus seeded histories over N in {0,1,2,3,5,8,16,97,1024}. distinct = distinct CASE lines; non-trivial = the array is non-empty (first integer > 0); fold / rfold of the iterator itself (not of a clone) from every (front, back) position; Debug with up to 97 elements still to come",
     "nontrivial": lambda case, obs: case.split()[0] != "0",
     "manifest": {
         "design_ref": "DESIGN.md section 7, C06",
